@@ -37,7 +37,7 @@ class Group:
         self.unwind = attrs.get('unwind')
         self.defs = [x for x in attrs.get('defs', '').split(';') if x]
         self.stop_allowed = attrs.get('stop') == 'allowed'
-        self.solver = attrs.get('solver', 'sat')
+        self.solver = attrs.get('solver', os.environ.get('VERIF_SOLVER', 'sat'))
         self.timeout = int(attrs.get('timeout', '300'))
         self.bounded = attrs.get('bounded')
         self.family = None
